@@ -66,6 +66,15 @@ Definition report_unbuilt_gen (i : ru_in) : N :=
 Definition serve_rc (invalid_target : bool) (i : ru_in) : N :=
   if invalid_target then serve_invalid_target_rc else report_unbuilt i.
 
+(* A director run: build_loop runs phases (one without a watcher, any number in watch mode, none
+   when the stop event fires before the first resume); every phase ends with Builder.finalize, the
+   only store to Builder.returncode, whose initial value is builder_default_rc.  serve() returns
+   that field after the tasks have been torn down. *)
+Fixpoint last_phase_rc (cur : N) (phases : list ru_in) : N :=
+  match phases with [] => cur | i :: r => last_phase_rc (report_unbuilt i) r end.
+Definition serve_phases (invalid_target : bool) (phases : list ru_in) : N :=
+  if invalid_target then serve_invalid_target_rc else last_phase_rc builder_default_rc phases.
+
 (* tui: translate_wait_status + _report_director_log_problems. *)
 Definition tui_exit (killed_by_signal : bool) (director_rc : N) (got_signal log_problem : bool) : N :=
   let rc := if killed_by_signal then rc_INTERNAL else director_rc in
